@@ -1,41 +1,43 @@
-(* SuspendPointDefs.v — executable model of cocls::suspend_point (suspend_point.h)
-   together with the part of the per-thread ready queue it talks to (coro_queue.h).
-   Model only; proofs are in SuspendPointProofs.v. *)
+(* SuspendPointDefs.v — executable model of cocls::suspend_point<void> / suspend_point<X> (suspend_point.h)
+   together with the part of the per-thread ready queue it talks to (coro_queue.h, incl. create_suspend_point).
+   Model only; proofs are in SuspendPointProofs.v.  Line numbers refer to src/cocls/suspend_point.h. *)
 From Cocls Require Import Base.
 Local Open Scope Z_scope.
 
-(* One suspend_point<int> object.
-   cf   = _count_flag (bit 0: heap flag, count = cf / 2)
-   hs   = the first `count` entries of the active array (inline or heap)
+(* One suspend point object (suspend_point<void> when typed = false, suspend_point<MV> when typed = true;
+   MV is a class type whose move constructor / move assignment leave the source holding `moved`).
+   cf   = _count_flag (bit 0: heap flag, count = cf / 2)                         l.215
+   hs   = the first `count` entries of the active array (inline or heap)         l.209-212
    cap  = _ext._capacity (meaningful only when the flag is set)
-   val  = the attached value *)
-Record sp := mkSp { cf : Z; hs : list Z; cap : Z; val : Z }.
+   val  = the attached value (l.308); untouched for a void object *)
+Record sp := mkSp { cf : Z; hs : list Z; cap : Z; typed : bool; val : Z }.
 
 Definition sp_count (s : sp) : Z := cf s / 2.
 Definition sp_flag (s : sp) : bool := Z.odd (cf s).
 Definition inline_count : Z := 3.
+Definition moved : Z := -1.      (* content of a moved-from MV *)
 
 (* cost of one call: (heap arrays allocated, heap arrays freed) — operator new[] / delete[] *)
 Definition cost := (Z * Z)%type.
 Definition cadd (a b : cost) : cost := (fst a + fst b, snd a + snd b).
 
 (* libstdc++ std::deque<coroutine_handle<>> node traffic (512-byte nodes, 64 handles each):
-   the k-th push_back since construction allocates a node when k mod 64 = 0, the k-th pop_front
-   frees one when k mod 64 = 0.  (Map growth needs >= 192 queued handles and is out of range.) *)
+   moving the finish cursor from position p to p+k allocates (p+k)/64 - p/64 nodes, moving it back frees as many;
+   the k-th pop_front frees one when k mod 64 = 0.  (Map growth needs >= 192 queued handles and is out of range.) *)
 Definition node_len : Z := 64.
 Definition node_cross (before k : Z) : Z := (before + k) / node_len - before / node_len.
 
-(* suspend_point<void>::add, line for line *)
+(* suspend_point<void>::add, line for line (l.226-270) *)
 Definition sp_add (s : sp) (h : Z) : sp * cost :=
   let count := sp_count s in
   if sp_flag s then
     if count =? cap s
-    then (mkSp (cf s + 2) (hs s ++ [h]) (count * 2) (val s), (1, 1))
-    else (mkSp (cf s + 2) (hs s ++ [h]) (cap s) (val s), (0, 0))
+    then (mkSp (cf s + 2) (hs s ++ [h]) (count * 2) (typed s) (val s), (1, 1))
+    else (mkSp (cf s + 2) (hs s ++ [h]) (cap s) (typed s) (val s), (0, 0))
   else
     if count <? inline_count
-    then (mkSp (cf s + 2) (hs s ++ [h]) (cap s) (val s), (0, 0))
-    else (mkSp (cf s + 3) (hs s ++ [h]) (count * 2) (val s), (1, 0)).
+    then (mkSp (cf s + 2) (hs s ++ [h]) (cap s) (typed s) (val s), (0, 0))
+    else (mkSp (cf s + 3) (hs s ++ [h]) (count * 2) (typed s) (val s), (1, 0)).
 
 Fixpoint sp_add_all (s : sp) (l : list Z) : sp * cost :=
   match l with
@@ -44,23 +46,29 @@ Fixpoint sp_add_all (s : sp) (l : list Z) : sp * cost :=
               let '(s2, c2) := sp_add_all s1 t in (s2, cadd c1 c2)
   end.
 
-(* clear_internal: frees the heap array if the flag is set *)
+(* clear_internal (l.218-223): frees the heap array if the flag is set *)
 Definition sp_clear_internal (s : sp) : sp * cost :=
-  (mkSp 0 [] (cap s) (val s), (0, if sp_flag s then 1 else 0)).
+  (mkSp 0 [] (cap s) (typed s) (val s), (0, if sp_flag s then 1 else 0)).
 
-(* operator<<(suspend_point&&): dst gets all handles of src, src is reset *)
+(* operator<<(suspend_point&&) (l.65-79): dst gets all handles of src, src is reset *)
 Definition sp_merge (dst src : sp) : sp * sp * cost :=
   let '(d, c) := sp_add_all dst (hs src) in
   let '(s0, c0) := sp_clear_internal src in
   (d, s0, cadd c c0).
 
-(* pop(): last handle, or None for the noop coroutine *)
+(* pop() (l.118-127): last handle, or None for the noop coroutine *)
 Definition sp_pop (s : sp) : sp * option Z :=
   if 0 <? sp_count s
-  then (mkSp (cf s - 2) (removelast (hs s)) (cap s) (val s), Some (last (hs s) 0))
+  then (mkSp (cf s - 2) (removelast (hs s)) (cap s) (typed s) (val s), Some (last (hs s) 0))
   else (s, None).
 
 Definition olist (h : option Z) : list Z := match h with Some x => [x] | None => [] end.
+
+(* base move constructor (l.55-62): the source keeps nothing (_count_flag = 0) *)
+Definition reset_src (s : sp) : sp := mkSp 0 [] (cap s) (typed s) (val s).
+(* the value member of a typed object that was the source of a move construction / move assignment *)
+Definition moved_val (s : sp) : sp := mkSp (cf s) (hs s) (cap s) (typed s) (if typed s then moved else val s).
+Definition set_val (s : sp) (v : Z) : sp := mkSp (cf s) (hs s) (cap s) (typed s) v.
 
 (* thread environment *)
 Record env := mkEnv {
@@ -73,76 +81,157 @@ Record env := mkEnv {
 Definition env0 : env := mkEnv [] [] 0 0.
 
 Inductive op :=
-| ONewV (o : nat) (v : Z)
-| ONewH (o : nat) (h v : Z)
-| OAdd (o : nat) (h : Z)
-| OMerge (o1 o2 : nat)
-| OMoveCtor (o1 o2 : nat)
-| OMoveBase (o1 o2 : nat) (v : Z)
+| ONewV (o : nat) (v : Z)                 (* suspend_point<MV>(MV(v)) *)
+| ONewH (o : nat) (h v : Z)               (* suspend_point<MV>(h, MV(v)) *)
+| OAdd (o : nat) (h : Z)                  (* sp << coroutine_handle *)
+| OMerge (o1 o2 : nat)                    (* base(o1) << move(base(o2)) *)
+| OMoveCtor (o1 o2 : nat)                 (* o1 = T(move(o2)), T the type of o2 *)
+| OMoveBase (o1 o2 : nat) (v : Z)         (* o1 = suspend_point<MV>(move(base(o2)), MV(v)) *)
 | OPop (o : nat)
 | OClear (o : nat)
 | ODestroy (o : nat)
-| OAwait (o : nat)
-| OFlush
-| OMoveAssign (o1 o2 : nat)
+| OAwait (o : nat)                        (* T tmp(move(o)); co_await tmp *)
+| OFlush                                  (* co_await pause() *)
+| OMoveAssign (o1 o2 : nat)               (* o1 = move(o2) *)
+| OCreate (o : nat) (t : bool) (v : Z) (l : list Z)   (* coro_queue::create_suspend_point(fn), fn readies the handles l *)
+| ONewVoid (o : nat)                      (* suspend_point<void>() *)
+| ONewVoidH (o : nat) (h : Z)             (* suspend_point<void>(h) *)
+| ORead (o : nat) (k : Z)                 (* k = 0: operator X(), k = 1: operator const X() const *)
+| OAwaitL (o : nat)                       (* co_await o (lvalue) *)
+| OAddSelf (o : nat)                      (* o << co_await self() *)
+| OSwap (o1 o2 : nat)                     (* std::swap(o1, o2), same type *)
 | OBad.
 
-(* observation: status (0 ok, 1 rejected), size after, value, allocs, frees, resumed handles *)
+(* observation: status (0 ok, 1 rejected), size after, value read after the op (const conversion; 0 for void objects),
+   heap arrays allocated / freed, deque nodes allocated / freed, ids of the coroutines resumed during the op in order
+   (0 = the awaiting coroutine itself continues) *)
 Record obs := mkObs { o_st : Z; o_size : Z; o_val : Z; o_cost : cost; o_qcost : cost; o_res : list Z }.
 Definition rejected : obs := mkObs 1 0 0 (0, 0) (0, 0) [].
 Definition ok_obs (size v : Z) (c : cost) (r : list Z) : obs := mkObs 0 size v c (0, 0) r.
 
-(* suspend_now(): normal mode resumes every handle immediately, in array order;
+Definition driver : Z := 0.   (* handle id of the coroutine that executes the ops in coroutine mode *)
+Definition is_drv (x : Z) : bool := x =? driver.
+Definition has_drv (s : sp) : bool := existsb is_drv (hs s).
+Definition hso (o : option sp) : list Z := match o with Some s => hs s | None => [] end.
+Definition held_objs (l : list (option sp)) : list Z := flat_map hso l.
+Definition held (e : env) : list Z := held_objs (objs e) ++ queue e.
+
+(* suspend_now() (l.130-145): normal mode resumes every handle immediately, in array order;
    coroutine mode appends them to the ready queue *)
 Definition suspend_now (coro : bool) (e : env) (s : sp) : sp * list Z * list Z * cost * Z :=
   let '(s0, c) := sp_clear_internal s in
   if coro then (s0, queue e ++ hs s, [], c, zlen (hs s))
   else (s0, queue e, hs s, c, 0).
 
-Definition driver : Z := 0.   (* handle id of the coroutine that executes the ops in coroutine mode *)
+(* flush_queue as seen by a suspended awaiter: everything in front of its own handle runs, then it continues *)
+Fixpoint split_drv (q : list Z) : list Z * list Z * bool :=
+  match q with
+  | [] => ([], [], false)
+  | x :: t => if is_drv x then ([], t, true)
+              else let '(a, b, f) := split_drv t in (x :: a, b, f)
+  end.
+
+(* await_suspend(h), active-queue branch (l.169-183), h = the driver, on a non-empty object s.
+   returns (object after, queue after, resumed ids until the driver continues, array cost, push_backs, pop_fronts) *)
+Definition await_suspend (q : list Z) (s : sp) : sp * list Z * list Z * cost * Z * Z :=
+  let '(s1, out) := sp_pop s in                                     (* l.170 *)
+  let rest := hs s1 in
+  let me_in := existsb is_drv (olist out) || existsb is_drv rest in (* l.173-177 (l.173: out compared as well) *)
+  let q1 := q ++ rest ++ (if me_in then [] else [driver]) in         (* l.176, l.179-181 *)
+  let pushes := zlen rest + (if me_in then 0 else 1) in
+  let '(s2, c) := sp_clear_internal s1 in                            (* l.182 *)
+  if existsb is_drv (olist out)
+  then (s2, q1, [driver], c, pushes, 0)                              (* symmetric transfer to the awaiter itself *)
+  else let '(pre, post, found) := split_drv q1 in                    (* out runs, then the queue up to the awaiter *)
+       (s2, post, olist out ++ pre ++ (if found then [driver] else []), c, pushes,
+        zlen pre + (if found then 1 else 0)).
+
+(* what an await adds on its own: the awaiter's handle, unless await_suspend found it in the list (l.179) *)
+Definition self_push (s : sp) : list Z :=
+  if sp_count s =? 0 then [driver]
+  else let '(s1, out) := sp_pop s in
+       if existsb is_drv (olist out) || existsb is_drv (hs s1) then [] else [driver].
+
+Definition upd (e : env) (l : list (option sp)) : env := mkEnv l (queue e) (qpush e) (qpop e).
 
 Definition step (coro : bool) (e : env) (x : op) : env * obs :=
   match x with
   | ONewV o v =>
       match get (objs e) o with
       | Some _ => (e, rejected)
-      | None => (mkEnv (put (objs e) o (Some (mkSp 0 [] 0 v))) (queue e) (qpush e) (qpop e), ok_obs 0 v (0,0) [])
+      | None => (upd e (put (objs e) o (Some (mkSp 0 [] 0 true v))), ok_obs 0 v (0,0) [])
       end
   | ONewH o h v =>
+      if h <=? 0 then (e, rejected) else
       match get (objs e) o with
       | Some _ => (e, rejected)
-      | None => (mkEnv (put (objs e) o (Some (mkSp 2 [h] 0 v))) (queue e) (qpush e) (qpop e), ok_obs 1 v (0,0) [])
+      | None => (upd e (put (objs e) o (Some (mkSp 2 [h] 0 true v))), ok_obs 1 v (0,0) [])
+      end
+  | ONewVoid o =>
+      match get (objs e) o with
+      | Some _ => (e, rejected)
+      | None => (upd e (put (objs e) o (Some (mkSp 0 [] 0 false 0))), ok_obs 0 0 (0,0) [])
+      end
+  | ONewVoidH o h =>
+      if h <=? 0 then (e, rejected) else
+      match get (objs e) o with
+      | Some _ => (e, rejected)
+      | None => (upd e (put (objs e) o (Some (mkSp 2 [h] 0 false 0))), ok_obs 1 0 (0,0) [])
+      end
+  | OCreate o t v l =>
+      (* coro_queue::create_suspend_point (l.319-347): fn pushes the handles l to the ready queue, they are taken
+         back from the END of the queue one by one (so in reverse order) and merged into a fresh suspend_point<void>,
+         which is then given the value; the queue is as before.  Same in normal mode (a queue is installed around it). *)
+      if negb (forallb (fun h => 0 <? h) l) then (e, rejected) else
+      match get (objs e) o with
+      | Some _ => (e, rejected)
+      | None => let '(s1, c) := sp_add_all (mkSp 0 [] 0 false 0) (rev l) in
+                let s2 := mkSp (cf s1) (hs s1) (cap s1) t (if t then v else 0) in
+                let k := node_cross (qpush e) (zlen l) in
+                (upd e (put (objs e) o (Some s2)), mkObs 0 (sp_count s2) (val s2) c (k, k) [])
       end
   | OAdd o h =>
+      if h <=? 0 then (e, rejected) else
       match get (objs e) o with
       | None => (e, rejected)
       | Some s => let '(s1, c) := sp_add s h in
-                  (mkEnv (put (objs e) o (Some s1)) (queue e) (qpush e) (qpop e), ok_obs (sp_count s1) (val s1) c [])
+                  (upd e (put (objs e) o (Some s1)), ok_obs (sp_count s1) (val s1) c [])
+      end
+  | OAddSelf o =>
+      (* `o << co_await self()`: self never suspends; legal only while the own handle is not already somewhere *)
+      if negb coro then (e, rejected) else
+      if existsb is_drv (held e) then (e, rejected) else
+      match get (objs e) o with
+      | None => (e, rejected)
+      | Some s => let '(s1, c) := sp_add s driver in
+                  (upd e (put (objs e) o (Some s1)), ok_obs (sp_count s1) (val s1) c [])
       end
   | OMerge o1 o2 =>
       if Nat.eqb o1 o2 then (e, rejected) else
       match get (objs e) o1, get (objs e) o2 with
       | Some d, Some s =>
           let '(d1, s1, c) := sp_merge d s in
-          (mkEnv (put (put (objs e) o1 (Some d1)) o2 (Some s1)) (queue e) (qpush e) (qpop e),
-           ok_obs (sp_count d1) (val d1) c [])
+          (upd e (put (put (objs e) o1 (Some d1)) o2 (Some s1)), ok_obs (sp_count d1) (val d1) c [])
       | _, _ => (e, rejected)
       end
   | OMoveAssign o1 o2 =>
+      (* typed = typed: implicit move assignment of suspend_point<X>: base merge (l.93) + value = move(other.value);
+         void = any: base merge only;  typed = void does not compile *)
       if Nat.eqb o1 o2 then (e, rejected) else
       match get (objs e) o1, get (objs e) o2 with
       | Some d, Some s =>
+          if typed d && negb (typed s) then (e, rejected) else
           let '(d1, s1, c) := sp_merge d s in
-          let d2 := mkSp (cf d1) (hs d1) (cap d1) (val s) in
-          (mkEnv (put (put (objs e) o1 (Some d2)) o2 (Some s1)) (queue e) (qpush e) (qpop e),
-           ok_obs (sp_count d2) (val d2) c [])
+          let d2 := if typed d then set_val d1 (val s) else d1 in
+          let s2 := if typed d then moved_val s1 else s1 in
+          (upd e (put (put (objs e) o1 (Some d2)) o2 (Some s2)), ok_obs (sp_count d2) (val d2) c [])
       | _, _ => (e, rejected)
       end
   | OMoveCtor o1 o2 =>
       if Nat.eqb o1 o2 then (e, rejected) else
       match get (objs e) o1, get (objs e) o2 with
       | None, Some s =>
-          (mkEnv (put (put (objs e) o1 (Some s)) o2 (Some (mkSp 0 [] (cap s) (val s)))) (queue e) (qpush e) (qpop e),
+          (upd e (put (put (objs e) o1 (Some s)) o2 (Some (moved_val (reset_src s)))),
            ok_obs (sp_count s) (val s) (0,0) [])
       | _, _ => (e, rejected)
       end
@@ -150,58 +239,89 @@ Definition step (coro : bool) (e : env) (x : op) : env * obs :=
       if Nat.eqb o1 o2 then (e, rejected) else
       match get (objs e) o1, get (objs e) o2 with
       | None, Some s =>
-          (mkEnv (put (put (objs e) o1 (Some (mkSp (cf s) (hs s) (cap s) v))) o2
-                      (Some (mkSp 0 [] (cap s) (val s)))) (queue e) (qpush e) (qpop e),
+          (upd e (put (put (objs e) o1 (Some (mkSp (cf s) (hs s) (cap s) true v))) o2 (Some (reset_src s))),
            ok_obs (sp_count s) v (0,0) [])
       | _, _ => (e, rejected)
+      end
+  | OSwap o1 o2 =>
+      (* std::swap: T tmp(move(a)); a = move(b); b = move(tmp); ~tmp — with the merging move assignment *)
+      if Nat.eqb o1 o2 then (e, rejected) else
+      match get (objs e) o1, get (objs e) o2 with
+      | Some a, Some b =>
+          if negb (Bool.eqb (typed a) (typed b)) then (e, rejected) else
+          let tmp := a in
+          let a0 := moved_val (reset_src a) in
+          let '(a1, b1, c1) := sp_merge a0 b in
+          let a2 := if typed a then set_val a1 (val b) else a1 in
+          let b2 := if typed a then moved_val b1 else b1 in
+          let '(b3, _, c2) := sp_merge b2 tmp in
+          let b4 := if typed a then set_val b3 (val tmp) else b3 in
+          (upd e (put (put (objs e) o1 (Some a2)) o2 (Some b4)), ok_obs (sp_count a2) (val a2) (cadd c1 c2) [])
+      | _, _ => (e, rejected)
+      end
+  | ORead o k =>
+      if negb ((k =? 0) || (k =? 1)) then (e, rejected) else
+      match get (objs e) o with
+      | None => (e, rejected)
+      | Some s => if typed s then (e, ok_obs (sp_count s) (val s) (0,0) []) else (e, rejected)
       end
   | OPop o =>
       match get (objs e) o with
       | None => (e, rejected)
-      | Some s => let '(s1, h) := sp_pop s in
-                  (mkEnv (put (objs e) o (Some s1)) (queue e) (qpush e) (qpop e),
-                   ok_obs (sp_count s1) (val s1) (0,0) (olist h))
+      | Some s => if has_drv s then (e, rejected) else
+                  let '(s1, h) := sp_pop s in
+                  (upd e (put (objs e) o (Some s1)), ok_obs (sp_count s1) (val s1) (0,0) (olist h))
       end
   | OClear o =>
       match get (objs e) o with
       | None => (e, rejected)
-      | Some s => let '(s1, q, r, c, k) := suspend_now coro e s in
+      | Some s => if has_drv s then (e, rejected) else
+                  let '(s1, q, r, c, k) := suspend_now coro e s in
                   (mkEnv (put (objs e) o (Some s1)) q (qpush e + k) (qpop e),
                    mkObs 0 0 (val s1) c (node_cross (qpush e) k, 0) r)
       end
   | ODestroy o =>
       match get (objs e) o with
       | None => (e, rejected)
-      | Some s => let '(s1, q, r, c, k) := suspend_now coro e s in
+      | Some s => if has_drv s then (e, rejected) else
+                  let '(s1, q, r, c, k) := suspend_now coro e s in
                   (mkEnv (put (objs e) o None) q (qpush e + k) (qpop e),
                    mkObs 0 0 (val s1) c (node_cross (qpush e) k, 0) r)
       end
   | OAwait o =>
-      (* coroutine mode only: the driver coroutine co_awaits object o.
-         await_ready: empty => no suspension.  Otherwise: pop one (symmetric transfer),
-         enqueue the rest, enqueue the driver; everything queued then runs before the
-         driver continues, because every test coroutine suspends again after logging. *)
+      (* coroutine mode only: the driver coroutine co_awaits a temporary move-constructed from object o (as in
+         `co_await f()`), so o is left moved-from.  await_ready (l.148): empty => no suspension, the temporary's
+         destructor frees a heap array it may still own.  Otherwise await_suspend. *)
       if negb coro then (e, rejected) else
       match get (objs e) o with
       | None => (e, rejected)
       | Some s =>
-          (* the harness awaits a temporary move-constructed from o (as in `co_await f()`), so o is
-             always left reset; an empty temporary that still owns a heap array frees it in its destructor *)
+          let src := moved_val (reset_src s) in
           if sp_count s =? 0 then
-            let '(s2, c) := sp_clear_internal s in
-            (mkEnv (put (objs e) o (Some s2)) (queue e) (qpush e) (qpop e), ok_obs 0 (val s) c []) else
-          let '(s1, h) := sp_pop s in
-          let '(s2, c) := sp_clear_internal s1 in
-          let pushes := zlen (hs s1) + 1 in
-          let pops := zlen (queue e) + zlen (hs s1) + 1 in
-          (mkEnv (put (objs e) o (Some s2)) [] (qpush e + pushes) (qpop e + pops),
-           mkObs 0 0 (val s2) c (node_cross (qpush e) pushes, node_cross (qpop e) pops)
-                 (olist h ++ queue e ++ hs s1))
+            let '(_, c) := sp_clear_internal s in
+            (upd e (put (objs e) o (Some src)), ok_obs 0 (val s) c [driver]) else
+          let '(_, q, r, c, pushes, pops) := await_suspend (queue e) s in
+          (mkEnv (put (objs e) o (Some src)) q (qpush e + pushes) (qpop e + pops),
+           mkObs 0 0 (val s) c (node_cross (qpush e) pushes, node_cross (qpop e) pops) r)
+      end
+  | OAwaitL o =>
+      (* co_await on the object itself: an empty object is not touched at all *)
+      if negb coro then (e, rejected) else
+      match get (objs e) o with
+      | None => (e, rejected)
+      | Some s =>
+          if sp_count s =? 0 then (e, ok_obs 0 (val s) (0,0) [driver]) else
+          let '(s2, q, r, c, pushes, pops) := await_suspend (queue e) s in
+          (mkEnv (put (objs e) o (Some s2)) q (qpush e + pushes) (qpop e + pops),
+           mkObs 0 0 (val s) c (node_cross (qpush e) pushes, node_cross (qpop e) pops) r)
       end
   | OFlush =>
+      (* co_await pause() (coro_queue.h l.217-227): push the driver, run the queue up to it *)
       if negb coro then (e, rejected) else
-      (mkEnv (objs e) [] (qpush e + 1) (qpop e + zlen (queue e) + 1),
-       mkObs 0 0 0 (0,0) (node_cross (qpush e) 1, node_cross (qpop e) (zlen (queue e) + 1)) (queue e))
+      let '(pre, post, found) := split_drv (queue e ++ [driver]) in
+      let pops := zlen pre + (if found then 1 else 0) in
+      (mkEnv (objs e) post (qpush e + 1) (qpop e + pops),
+       mkObs 0 0 0 (0,0) (node_cross (qpush e) 1, node_cross (qpop e) pops) (pre ++ (if found then [driver] else [])))
   | OBad => (e, rejected)
   end.
 
@@ -215,7 +335,15 @@ Fixpoint run_from (coro : bool) (e : env) (l : list op) : list obs * env :=
 (* ---------- wire encoding ---------- *)
 Definition n (z : Z) : nat := Z.to_nat z.
 
-Definition decode (l : list Z) : op :=
+Definition slot_ok (o : Z) : bool := (0 <=? o) && (o <? 64).
+Definition raw_slots (l : list Z) : list Z :=
+  match l with
+  | c :: a :: b :: _ => if memz c [3; 4; 5; 11; 18] then [a; b] else [a]
+  | [_; a] => [a]
+  | _ => []
+  end.
+
+Definition decode0 (l : list Z) : op :=
   match l with
   | [0; o; v] => ONewV (n o) v
   | [1; o; h; v] => ONewH (n o) h v
@@ -229,8 +357,17 @@ Definition decode (l : list Z) : op :=
   | [9; o] => OAwait (n o)
   | [10] => OFlush
   | [11; a; b] => OMoveAssign (n a) (n b)
+  | 12 :: o :: t :: v :: l => if (t =? 0) || (t =? 1) then OCreate (n o) (t =? 1) v l else OBad
+  | [13; o] => ONewVoid (n o)
+  | [14; o; h] => ONewVoidH (n o) h
+  | [15; o; k] => ORead (n o) k
+  | [16; o] => OAwaitL (n o)
+  | [17; o] => OAddSelf (n o)
+  | [18; a; b] => OSwap (n a) (n b)
   | _ => OBad
   end.
+
+Definition decode (l : list Z) : op := if forallb slot_ok (raw_slots l) then decode0 l else OBad.
 
 Definition encode_obs (o : obs) : list Z :=
   o_st o :: o_size o :: o_val o :: fst (o_cost o) :: snd (o_cost o)
@@ -240,21 +377,90 @@ Definition sp_run (coro : bool) (ops : list (list Z)) : list (list Z) :=
   map encode_obs (fst (run_from coro env0 (map decode ops))).
 
 (* ---------- decidable form of C06 over an observed trace (used on implementation output) ---------- *)
+(* ready coroutines handed in by an accepted op (the awaiter's own handle is accounted separately) *)
 Definition handed_of (x : op) (ok : bool) : list Z :=
-  if ok then match x with ONewH _ h _ => [h] | OAdd _ h => [h] | _ => [] end else [].
+  if ok then match x with
+             | ONewH _ h _ => [h] | OAdd _ h => [h] | ONewVoidH _ h => [h] | OCreate _ _ _ l => l
+             | _ => [] end
+  else [].
 
 Definition obs_ok (l : list Z) : bool := match l with 0 :: _ => true | _ => false end.
 Definition obs_res (l : list Z) : list Z := skipn 7 l.
+Definition obs_val (l : list Z) : Z := nth 2 l 0.
 Definition obs_allocs (l : list Z) : Z := nth 3 l 0.
 Definition obs_frees (l : list Z) : Z := nth 4 l 0.
 
 Fixpoint sumz (l : list Z) : Z := match l with [] => 0 | x :: t => x + sumz t end.
 
-(* The trace oracle: every op accepted; resumed multiset = handed multiset (valid when the
-   case ends with all objects destroyed and the queue flushed); allocations = frees. *)
+Definition not_drv (x : Z) : bool := negb (is_drv x).
+
+(* an op during which the awaiting coroutine is suspended (or at least passes through co_await) *)
+Definition awaits (x : op) : bool :=
+  match x with OAwait _ | OAwaitL _ | OFlush => true | _ => false end.
+
+(* the awaiter continues exactly once, after everything that ran in between, per accepted await;
+   it is never resumed by any other op *)
+Definition drv_ok (x : op) (ok : bool) (res : list Z) : bool :=
+  if ok && awaits x
+  then match rev res with d :: t => is_drv d && forallb not_drv t | [] => false end
+  else forallb not_drv res.
+
+(* ---- value clause: an independent account of which value every object must show ----
+   per slot: None = no object, Some (typed, value).  Only constructions set a value, only a move construction /
+   move assignment FROM a typed object replaces it by `moved`; nothing else touches it. *)
+Definition vinfo := (bool * Z)%type.
+Definition vget (vs : list (option vinfo)) (o : nat) : Z := match get vs o with Some (_, v) => v | None => 0 end.
+Definition vmoved (i : option vinfo) : option vinfo :=
+  match i with Some (t, v) => Some (t, if t then moved else v) | None => None end.
+Definition vtyped (i : option vinfo) : bool := match i with Some (t, _) => t | None => false end.
+
+(* returns the new table and the value the op's observation must carry *)
+Definition vstep (vs : list (option vinfo)) (x : op) : list (option vinfo) * Z :=
+  match x with
+  | ONewV o v | ONewH o _ v => (put vs o (Some (true, v)), v)
+  | ONewVoid o | ONewVoidH o _ => (put vs o (Some (false, 0)), 0)
+  | OCreate o t v _ => (put vs o (Some (t, if t then v else 0)), if t then v else 0)
+  | OAdd o _ | OAddSelf o | OPop o | OClear o | ORead o _ | OAwaitL o | OMerge o _ => (vs, vget vs o)
+  | OMoveCtor a b => let vs1 := put (put vs a (get vs b)) b (vmoved (get vs b)) in (vs1, vget vs1 a)
+  | OMoveBase a _ v => (put vs a (Some (true, v)), v)
+  | OMoveAssign a b =>
+      if vtyped (get vs a)
+      then let vs1 := put (put vs a (get vs b)) b (vmoved (get vs b)) in (vs1, vget vs1 a)
+      else (vs, vget vs a)
+  | OSwap a b =>
+      if vtyped (get vs a)
+      then let vs1 := put (put vs a (get vs b)) b (get vs a) in (vs1, vget vs1 a)
+      else (vs, vget vs a)
+  | ODestroy o => (put vs o None, vget vs o)
+  | OAwait o => (put vs o (vmoved (get vs o)), vget vs o)
+  | OFlush | OBad => (vs, 0)
+  end.
+
+Fixpoint vals_ok (vs : list (option vinfo)) (ops : list op) (obs : list (list Z)) : bool :=
+  match ops, obs with
+  | x :: t, ob :: u =>
+      if obs_ok ob
+      then let '(vs1, v) := vstep vs x in (obs_val ob =? v) && vals_ok vs1 t u
+      else vals_ok vs t u
+  | _, _ => true
+  end.
+
+Fixpoint drv_all_ok (ops : list op) (obs : list (list Z)) : bool :=
+  match ops, obs with
+  | x :: t, ob :: u => drv_ok x (obs_ok ob) (obs_res ob) && drv_all_ok t u
+  | _, _ => true
+  end.
+
+(* The trace oracle (valid when the case ends with all objects destroyed and the queue flushed):
+   one observation per op; ready coroutines resumed = ready coroutines handed in (as multisets);
+   the awaiter continues exactly once per await and never otherwise; allocations = frees;
+   every value shown is the one the producer supplied. *)
 Definition sp_oracle (ops obs : list (list Z)) : bool :=
-  let handed := flat_map (fun p => handed_of (decode (fst p)) (obs_ok (snd p))) (combine ops obs) in
-  let resumed := flat_map obs_res obs in
+  let dops := map decode ops in
+  let handed := flat_map (fun p => handed_of (fst p) (obs_ok (snd p))) (combine dops obs) in
+  let resumed := filter not_drv (flat_map obs_res obs) in
   Nat.eqb (length ops) (length obs)
   && perm_b handed resumed
-  && (sumz (map obs_allocs obs) =? sumz (map obs_frees obs)).
+  && drv_all_ok dops obs
+  && (sumz (map obs_allocs obs) =? sumz (map obs_frees obs))
+  && vals_ok [] dops obs.
